@@ -42,11 +42,19 @@ ProdReOther(rank, dim, A, B) ==
   ELSE IF rank = 1 THEN SumSeq([k \in 1..dim |-> GConjRe(B[k], A[k])])
   ELSE SumSeq([k \in 1..dim |-> SumSeq([l \in 1..dim |-> GConjRe(B[l][k], A[k][l])])])
 
+\* sum of f[lo..hi] by halving (recursion depth log2: particle counts in the thousands and series of a
+\* thousand frames are summed without the quadratic copying / linear depth of SumSeq)
+RECURSIVE SumIdx(_, _, _)
+SumIdx(f, lo, hi) ==
+  IF lo > hi THEN 0
+  ELSE IF lo = hi THEN f[lo]
+  ELSE LET mid == (lo + hi) \div 2 IN SumIdx(f, lo, mid) + SumIdx(f, mid + 1, hi)
+
 \* particle-summed product of frame `later` with the conjugate of frame `earlier` (frames 1-based)
 P(s, later, earlier) ==
-  SumSeq([i \in 1..s.N |-> ProdRe(s.rank, s.dim, s.val[later][i], s.val[earlier][i])])
+  SumIdx([i \in 1..s.N |-> ProdRe(s.rank, s.dim, s.val[later][i], s.val[earlier][i])], 1, s.N)
 POther(s, later, earlier) ==
-  SumSeq([i \in 1..s.N |-> ProdReOther(s.rank, s.dim, s.val[later][i], s.val[earlier][i])])
+  SumIdx([i \in 1..s.N |-> ProdReOther(s.rank, s.dim, s.val[later][i], s.val[earlier][i])], 1, s.N)
 
 \* ---- sampling kind ----
 Diffs(ts) == {ts[k + 1] - ts[k] : k \in 1..(Len(ts) - 1)}
@@ -58,7 +66,7 @@ DefPairs(s, k) ==          \* <<origin, end>>, 0-based frame indices
   IF Kind(s.ts) = "linear" THEN {<<o, o + k>> : o \in 0..(s.T - 1 - k)} ELSE {<<0, k>>}
 DefSum(s, k) ==
   IF Kind(s.ts) = "linear"
-  THEN SumSeq([o \in 1..(s.T - k) |-> P(s, o + k, o)])
+  THEN SumIdx([o \in 1..(s.T - k) |-> P(s, o + k, o)], 1, s.T - k)
   ELSE P(s, k + 1, 1)
 DefCount(s, k) == IF Kind(s.ts) = "linear" THEN s.T - k ELSE 1
 DefMean(s, k)  == RNorm(DefSum(s, k), DefCount(s, k))
@@ -88,6 +96,82 @@ StAcc(s, st) ==
                    ELSE st.n + 1 ]     \* log: origin n - nn stays 0
 \* in the log kind the loop visits (n, nn = n) only: start with nn = n = 0, then n + 1
 AlgMean(st, k) == RNorm(st.acc[k + 1], st.counts[k + 1])
+
+\* the terminal loop state stated directly from the definition (series too long for one TLC state per
+\* (n, nn) iteration: T (T + 1) / 2 steps); the per-lag sums are evaluated once and carried in the state
+StDirect(s) == [n |-> s.T - 1, nn |-> s.T - 1,
+                counts |-> [k \in 1..s.T |-> DefCount(s, k - 1)],
+                acc    |-> [k \in 1..s.T |-> DefSum(s, k - 1)],
+                pairs  |-> << >>, done |-> TRUE]
+StCorrTerm(st, k) == Div(Q(st.acc[k + 1], st.counts[k + 1]), Q(st.acc[1], st.counts[1]))
+
+\* ---- storage representations of a series --------------------------------------------------------
+\* The property speaks of real or complex VALUES; an array holds them in some storage type.  A type
+\* can hold a series iff every value is representable in it - the products and sums the definition
+\* forms need not be (they are numbers, not elements of the storage type).  For every integer type
+\* that holds the series the spec states whether some element-wise product, or some particle /
+\* component sum, of a pair the definition uses lies outside the type's range (then arithmetic carried
+\* out in the storage type gives another number); for the binary floating types it states whether every
+\* product and every partial sum is an integer below 2^mantissa (then arithmetic in that type is exact
+\* and the result is defined to the usual tolerance; otherwise the rounding is float-fragile and the
+\* type is not rendered).
+IntTypes == << [name |-> "bool",   lo |-> 0,         hi |-> 1],
+               [name |-> "int8",   lo |-> 0 - 128,   hi |-> 127],
+               [name |-> "uint8",  lo |-> 0,         hi |-> 255],
+               [name |-> "int16",  lo |-> 0 - 32768, hi |-> 32767],
+               [name |-> "uint16", lo |-> 0,         hi |-> 65535],
+               [name |-> "int32",  lo |-> 0 - 2147483647, hi |-> 2147483647],
+               [name |-> "int64",  lo |-> 0 - 2147483647, hi |-> 2147483647] >>   \* at least TLC's own range
+FloatTypes == << [name |-> "float16", mant |-> 2048,     cplx |-> 0],
+                 [name |-> "float32", mant |-> 16777216, cplx |-> 0],
+                 [name |-> "complex64", mant |-> 16777216, cplx |-> 1] >>
+
+LeafSet(s) ==          \* all Gaussian-integer leaves of the series
+  UNION { UNION { IF s.rank = 0 THEN {s.val[f][i]}
+                  ELSE IF s.rank = 1 THEN {s.val[f][i][k] : k \in 1..s.dim}
+                  ELSE {s.val[f][i][k][l] : k \in 1..s.dim, l \in 1..s.dim} : i \in 1..s.N } : f \in 1..s.T }
+IsReal(s)      == \A z \in LeafSet(s) : z[2] = 0
+Holds(s, ty)   == IsReal(s) /\ \A z \in LeafSet(s) : ty.lo <= z[1] /\ z[1] <= ty.hi
+MaxLeaf(s)     == LET L == LeafSet(s) IN CHOOSE m \in {Abs(z[1]) + Abs(z[2]) : z \in L} :
+                                            \A z \in L : Abs(z[1]) + Abs(z[2]) <= m
+\* bound of the sum of the absolute values of all products entering one P(s, a, b): bounds every partial sum
+AbsBound(s)    == s.N * (IF s.rank = 0 THEN 1 ELSE IF s.rank = 1 THEN s.dim ELSE s.dim * s.dim) * MaxLeaf(s) * MaxLeaf(s)
+UsedPairs(s)   == IF Kind(s.ts) = "linear" THEN {<<a, b>> \in (1..s.T) \X (1..s.T) : a >= b}
+                  ELSE {<<a, 1>> : a \in 1..s.T}
+Out(x, ty)     == x < ty.lo \/ x > ty.hi
+\* element-wise products formed for particle values A (later), B (earlier); real series: the re parts
+ElemProds(rank, dim, A, B) ==
+  IF rank = 0 THEN {A[1] * B[1]}
+  ELSE IF rank = 1 THEN {A[k][1] * B[k][1] : k \in 1..dim}
+  ELSE {A[k][l][1] * B[l][k][1] : k \in 1..dim, l \in 1..dim}
+\* sums formed per particle: the component sum (dot product / trace) and, for tensors, the diagonal
+\* entries of the matrix product
+PartSums(rank, dim, A, B) ==
+  {ProdRe(rank, dim, A, B)} \cup
+  (IF rank = 2 THEN {SumSeq([l \in 1..dim |-> GConjRe(A[k][l], B[l][k])]) : k \in 1..dim} ELSE {})
+ProdLeaves(s, ty) ==
+  \E pr \in UsedPairs(s) : \E i \in 1..s.N :
+     \E x \in ElemProds(s.rank, s.dim, s.val[pr[1]][i], s.val[pr[2]][i]) : Out(x, ty)
+SumLeaves(s, ty) ==
+  \E pr \in UsedPairs(s) :
+     \/ Out(P(s, pr[1], pr[2]), ty)
+     \/ \E i \in 1..s.N : \E x \in PartSums(s.rank, s.dim, s.val[pr[1]][i], s.val[pr[2]][i]) : Out(x, ty)
+\* integer storage types (of the names in `names`) that hold the series, each with what leaves its range
+IntReps(s, names) ==
+  LET b == AbsBound(s)
+      one(ty) == IF b <= ty.hi THEN [dt |-> ty.name, prod |-> FALSE, sum |-> FALSE]    \* nothing can leave
+                 ELSE [dt |-> ty.name, prod |-> ProdLeaves(s, ty), sum |-> SumLeaves(s, ty)]
+  IN  IF ~IsReal(s) THEN << >>
+      ELSE SelectSeq([j \in 1..Len(IntTypes) |->
+                        IF IntTypes[j].name \in names /\ Holds(s, IntTypes[j]) THEN one(IntTypes[j])
+                        ELSE [dt |-> "", prod |-> FALSE, sum |-> FALSE]], LAMBDA r : r.dt # "")
+\* floating types in which the whole evaluation is exact integer arithmetic
+FloatReps(s) ==
+  LET b == AbsBound(s)
+      c == IF IsReal(s) THEN 0 ELSE 1
+  IN  SelectSeq([j \in 1..Len(FloatTypes) |->
+                   IF FloatTypes[j].cplx = c /\ b < FloatTypes[j].mant THEN FloatTypes[j].name ELSE ""],
+                LAMBDA n : n # "")
 
 \* ---- clauses ----
 CountsPerLag(s, st) ==
